@@ -46,14 +46,15 @@ def _build(inc_a, inc_b):
     files = {
         "/r/src/a.c": [INC_SPELL[inc_a], "#ifdef H", "@", "#endif", "#ifdef X", "@", "#endif", "@"],
         "/r/src/b.c": [INC_SPELL[inc_b], "@", INC_SPELL[inc_a], "@"],
-        "/r/src/sub/h.h": ["#pragma once", "#define H", "#ifdef X", "@", "#else", "@", "#endif"],
+        # the body behaves differently on a second pass, so processing the #pragma once header twice is visible
+        "/r/src/sub/h.h": ["#pragma once", "#ifdef H", "@", "#endif", "#define H", "#ifdef X", "@", "#else", "@", "#endif"],
     }
     links = {"/r/lnk_a.c": "/r/src/a.c", "/r/dl": "/r/src"}
     return files, links
 
 
 def _pre(sa, sb, si, ia, ib):
-    return 0 <= sa < 4 and 0 <= sb < 4 and 0 <= si < 3 and 0 <= ia < 3 and 0 <= ib < 3
+    return 0 <= sa < 4 and 0 <= sb < 4 and 0 <= si < 3 and 0 <= ia < 3 and 0 <= ib < 3 and sa == P["fix"][0] and si == P["fix"][1]
 
 
 def h_alias(sa: int, sb: int, si: int, ia: int, ib: int, linkmember: bool, dx: bool) -> bool:
@@ -164,7 +165,8 @@ def replay(obd, cex):
 
 
 def obligations(tier, known):
-    return [Ob(id="alias/all", kind="ch", module=__name__, func="h_alias", params={}, timeout=900, group="alias")]
+    return [Ob(id="alias/cmd%d-inc%d" % (a, i), kind="ch", module=__name__, func="h_alias", params=dict(fix=[a, i]), timeout=900,
+               group="alias") for a in range(4) for i in range(3)]
 
 
 CLAIM = ("For every combination of path spellings (canonical, with redundant segments, through a file symlink, through a directory symlink) at "
